@@ -3,7 +3,7 @@
 From Coq Require Import List NArith ZArith Bool.
 From Verif Require Import lib.Wire c08.Varint c08.SymCrypto gen.Consts_c19 c19.Model c19.Spec
      c19.Proofs_Bytes c19.Proofs_Server c19.Proofs_Step c19.Proofs_Client
-     c19.Proofs_Adv c19.Proofs_Trace c19.Proofs_Inv c19.Proofs_Mint.
+     c19.Proofs_Adv c19.Proofs_Trace c19.Proofs_Inv c19.Proofs_Mint c19.Proofs_Cache.
 Import ListNotations.
 Local Open Scope N_scope.
 
@@ -131,6 +131,23 @@ Theorem c19_monitor_accepts_model_authenticated_do : forall k h resps fresh pid 
   monitor5 (mkC5 k h fresh resps (z_of_on pid) qs) = [].
 Proof. exact monitor5_model_l. Qed.
 Print Assumptions c19_monitor_accepts_model_authenticated_do.
+
+(* HEADLINE (token cache).  For every history of AuthenticatedDo calls on one
+   ClientPeerIDAuth (scripted responses, statuses and random draws arbitrary): the
+   history monitor accepts the model — a call that runs a handshake proves the id
+   it returns in that very call, and a call that only presents the stored token
+   returns an id proven by the handshake that produced that token. *)
+Theorem c19_monitor_accepts_model_history : forall calls k h cs,
+  model_calls k h None calls = Some cs -> monitor_calls k h None 0 cs = [].
+Proof. intros calls k h cs. exact (monitor_calls_model_l calls k h None None 0 cs I). Qed.
+Print Assumptions c19_monitor_accepts_model_history.
+
+Theorem c19_cached_id_was_proven : forall k h tok cp last r1 rs fresh,
+  cache_inv k h (Some (tok, cp)) last -> (r_status r1 =? 401)%Z = false ->
+  auth_call_i k h (Some (tok, cp)) (r1 :: rs) fresh = Some (Some cp, [tok], Some (tok, cp)) /\
+  exists F V, last = Some (F, V) /\ proved k h F V cp.
+Proof. exact cached_id_was_proven_l. Qed.
+Print Assumptions c19_cached_id_was_proven.
 
 (* ==== the adversary closure ========================================================= *)
 (* For every set of honest servers with secret, pairwise different HMAC secrets,
@@ -281,17 +298,30 @@ Example model_client_reports_after_proof :
 Proof. vm_compute. reflexivity. Qed.
 
 Example model_authenticated_do_accepts_honest_server :
-  match auth_do_i 3 7 [mkResp [(str "K"%string, (60, Some (TPub 1))); (str "G"%string, (61, Some ex_srv_sig))]
+  match auth_do_i 3 7 [mkResp 401 [(str "K"%string, (60, Some (TPub 1))); (str "G"%string, (61, Some ex_srv_sig))]
                               (str "libp2p-PeerID public-key=""K"", sig=""G"""%string) [];
-                       mkResp [] [] []] [300; 301; 302] with
+                       mkResp 200 [] [] []] [300; 301; 302] with
   | Some (Some 1, _) => True
   | _ => False
   end.
 Proof. vm_compute. exact I. Qed.
 
 Example authenticated_do_monitor_rejects_unproven :
-  monitor5 (mkC5 3 7 [300; 301] [mkResp [] [] []] 1 []) <> [].
+  monitor5 (mkC5 3 7 [300; 301] [mkResp 200 [] [] []] 1 []) <> [].
 Proof. vm_compute. discriminate. Qed.
+
+(* history: a handshake proves server 1; the next call only presents the token
+   (one request, no challenge) and reports 2: rejected; reporting 1: accepted *)
+Definition ex_call1 : call7 :=
+  mkCall [300; 301; 302]
+         [mkResp 401 [(str "K"%string, (60, Some (TPub 1))); (str "G"%string, (61, Some ex_srv_sig))]
+                 (str "libp2p-PeerID public-key=""K"", sig=""G"""%string) [];
+          mkResp 200 [] [] []]
+         1 [[(N_CHALS, atom 300); (N_PK, TPub 3)]; [(N_SIG, TGarbage 1)]].
+Example history_monitor_rejects_stale_cached_id :
+  monitor_calls 3 7 None 0 [ex_call1; mkCall [] [mkResp 200 [] [] []] 2 [[(N_BEARER, atom 9)]]] <> [] /\
+  monitor_calls 3 7 None 0 [ex_call1; mkCall [] [mkResp 200 [] [] []] 1 [[(N_BEARER, atom 9)]]] = [].
+Proof. split; vm_compute; [discriminate | reflexivity]. Qed.
 
 Example client_monitor_rejects_unproven_report :
   monitor_client 3 7 [] [] 0 [mkCS 2 300 [] [] [] true 5 1 true false []] <> [].
